@@ -444,9 +444,17 @@ def add_cancel_script(rng, sc, how=None, allow_ctrlc=True):
     return sc
 
 
+def _maybe_bandwidth(rng, sc, p=0.15):
+    if rng.random() < p:
+        sc['config']['max_bandwidth'] = rng.choice([8, 64, 1000])
+        sc['knobs']['bw_threshold'] = rng.choice([1, 4, 16])
+    return sc
+
+
 def gen_C04(rng):
     sc = base(rng, ALL_TYPES, nmax=4, tight=True, nsubs=2, reenter=True,
               short_reads=True, maxsize=30)
+    _maybe_bandwidth(rng, sc)
     n = len(sc['transfers'])
     if rng.random() < 0.35:
         i = rng.randrange(n)
@@ -570,6 +578,29 @@ def gen_C11(rng):
     return sc
 
 
+def gen_C13(rng):
+    """End-to-end transfers through a manager with max_bandwidth set."""
+    sc = base(rng, [('upload', 4), ('download', 4)], nmax=3, short_reads=True, maxsize=36)
+    sc['config']['max_bandwidth'] = rng.choice([8, 64, 1000])
+    sc['knobs']['bw_threshold'] = rng.choice([1, 4, 16, 256 * 1024])
+    sc['knobs']['latency'] = 'none'
+    sc['knobs']['pre_read'] = rng.random() < 0.2
+    sc['knobs']['sign_read'] = rng.random() < 0.3
+    r = rng.random()
+    if r < 0.3:
+        add_cancel_script(rng, sc)
+    elif r < 0.5:
+        i = rng.randrange(len(sc['transfers']))
+        sc['faults'] += gen_fatal_fault(rng, i, sc['transfers'][i], sc['config'])
+    elif r < 0.7:
+        for i, t in enumerate(sc['transfers']):
+            if t['type'] == 'upload':
+                sc['faults'] += gen_rewinds(rng, i, t, sc['config'])
+            else:
+                sc['faults'] += gen_stream_retries(rng, i, t, sc['config'], 1)
+    return sc
+
+
 def gen_C18(rng):
     sc = base(rng, ALL_TYPES, nmax=4, tight=rng.random() < 0.4, short_reads=True,
               maxsize=28)
@@ -606,6 +637,7 @@ GENERATORS = {
     'C01': gen_C01, 'C02': gen_C02, 'C03': gen_C03, 'C04': gen_C04,
     'C05': gen_C05, 'C06': gen_C06, 'C07': gen_C07, 'C08': gen_C08,
     'C09': gen_C09, 'C10': gen_C10, 'C11': gen_C11, 'C18': gen_C18,
+    'C13': gen_C13,
 }
 
 
